@@ -161,6 +161,10 @@ func (s *State) run(fn *ssa.Function, args []Value, isRoot bool, fc *FuncContrac
 		fr.env[p] = args[i]
 	}
 	fr.free = free
+	if isRoot && s.rootAllArgs != nil {
+		// a closure under contract: clause functions take (captured values..., parameters...)
+		fr.params = s.rootAllArgs
+	}
 	for i, fv := range fn.FreeVars {
 		fr.env[fv] = free[i]
 	}
